@@ -678,3 +678,147 @@ def _reference_straddles(prog):
 
 def make_pipe(prog_json, compiled, props):
     return Pipeline(prog_json, compiled, props)
+
+
+class SwitchEndian(T2Case):
+    """C05: a definition loaded under one byte order is read under the other one after cs.endian is switched: the
+    compiled reader must follow the switch exactly like the interpreted one (no byte order frozen into generated code)."""
+
+    kind = "C05switch"
+    functions = ["<generated>._read (compiler.py:_ReadSourceGenerator)", "dissect/cstruct/types/structure.py:StructureMetaType._read"]
+
+    def body(self, ctx):
+        if not self.load_or_reject(ctx):
+            return
+        other = ">" if self.prog.endian == "<" else "<"
+        # warm both readers up natively under the original byte order, then switch
+        for c in (False, True):
+            T = self.cls(c)
+            try:
+                T(bytes(64))
+            except Exception:  # noqa: BLE001
+                pass
+            self._cs[c].endian = other
+        try:
+            Ti, Tc = self.cls(False), self.cls(True)
+            D, p = self.new_input(ctx)
+            it = self.interp(ctx)
+            s1 = SymStream(ctx, D, p, name="si")
+            o1 = outcome(it, Ti._read, [s1])
+            s2 = SymStream(ctx, D, p, name="sc")
+            o2 = outcome(it, Tc._read, [s2])
+            ctx.cover("reach")
+            if o1[0] == "ok" and o2[0] == "ok":
+                ctx.prove("values-equal-after-switch", eq_values(it, o1[1], o2[1]))
+                ctx.prove("pos-equal-after-switch", ctx.eq(s1.pos, s2.pos))
+            elif o1[0] != o2[0]:
+                ctx.prove("no-contradiction-after-switch", False, info=f"{o1[0]} vs {o2[0]}")
+        finally:
+            for c in (False, True):
+                self._cs[c].endian = self.prog.endian
+
+
+def make_switch(prog_json):
+    return SwitchEndian(prog_json)
+
+
+class LayoutRef(T2Case):
+    """C04/C06/C11: the library's computed layout of a program equals the independent reference layout."""
+
+    kind = "layout"
+    functions = ["dissect/cstruct/types/structure.py:StructureMetaType._calculate_size_and_offsets",
+                 "dissect/cstruct/types/structure.py:UnionMetaType._calculate_size_and_offsets"]
+
+    def body(self, ctx):
+        from specs import layout
+
+        if not self.load_or_reject(ctx):
+            return
+        for compiled in (False, True):
+            cs = self._cs[compiled]
+            for name, t in cs.typedefs.items():
+                from dissect.cstruct.types import Structure
+
+                if not (isinstance(t, type) and issubclass(t, Structure)):
+                    continue
+                d = layout.describe(t)
+                lib = layout.library_view(t)
+                tag = f"{'compiled' if compiled else 'interpreted'}/{name}"
+                ctx.prove(f"{tag}/size", lib["size"] == d["size"], info=f"library {lib['size']} reference {d['size']}")
+                ctx.prove(f"{tag}/alignment", (lib["align"] or 0) == (d["align"] or 0), info=f"library {lib['align']} reference {d['align']}")
+                ref = d["layout"]["offsets"] if d.get("layout") else None
+                if d["kind"] == "union":
+                    ok = all((f.offset or 0) == 0 for f in t.__fields__)
+                    ctx.prove(f"{tag}/union-members-at-0", ok)
+                elif ref is not None:
+                    ctx.prove(f"{tag}/offsets", lib["offsets"] == ref, info=f"library {lib['offsets']} reference {ref}")
+        a, b = self._cs[False].T, self._cs[True].T
+        ctx.prove("compiled-and-interpreted-layout-equal", (a.size, a.alignment, [f.offset for f in a.__fields__]) == (b.size, b.alignment, [f.offset for f in b.__fields__]))
+        ctx.cover("layout")
+
+
+def make_layout(prog_json):
+    return LayoutRef(prog_json)
+
+
+class ArraySemantics(T2Case):
+    """C07 per single-array program: number of elements and consumed bytes follow the declared length form."""
+
+    kind = "C07arr"
+    functions = ["dissect/cstruct/types/base.py:BaseArray._read", "dissect/cstruct/types/base.py:MetaType._read_array"]
+    DECL = {"a_u16_3": (3, 2), "a_i24_2": (2, 3), "a_u8_0": (0, 1), "a_char_4": (4, 1), "a_wchar_2": (2, 2), "a_e8_2": (2, 1), "a_ptr_2": (2, 8),
+            "a_f32_2": (2, 4), "a_inner_2": (2, None)}
+    DYN = {"d_u16": 2, "d_char": 1, "d_wchar": 2, "d_i24": 3}
+    ZERO = {"z_char": 1, "z_u16": 2, "z_wchar": 2, "z_i24": 3, "z_e8": 1}
+    EOFK = {"eof_u8": 1, "eof_u16": 2, "eof_char": 1}
+
+    def body(self, ctx):
+        if not self.load_or_reject(ctx):
+            return
+        k = self.prog.kinds[0]
+        for compiled in (False, True):
+            T = self.cls(compiled)
+            D, p = self.new_input(ctx)
+            it = self.interp(ctx)
+            s = SymStream(ctx, D, p, name="in")
+            o = outcome(it, T._read, [s])
+            tag = "compiled" if compiled else "interpreted"
+            if o[0] != "ok":
+                continue
+            v = getattr(o[1], "f0")
+            n = _count(v, k)
+            L = D.length()
+            if k in self.DECL:
+                cnt, _ = self.DECL[k]
+                ctx.prove(f"{tag}/x[n]-holds-exactly-n", ctx.eq(n, cnt), info=f"{n} elements")
+            elif k in self.DYN:
+                want = getattr(o[1], "f0_n")
+                ctx.prove(f"{tag}/x[expr]-holds-expr-elements", ctx.eq(n, want))
+                ctx.prove(f"{tag}/x[expr]-consumes-count*size", ctx.eq(s.pos, _norm(zint(p) + 1 + zint(want) * self.DYN[k])) if not self.prog.align else True)
+            elif k == "d_expr":
+                a, b = getattr(o[1], "f0_a"), getattr(o[1], "f0_b")
+                ctx.prove(f"{tag}/x[expr]-evaluated-over-earlier-fields", ctx.eq(n, _norm(zint(a) * 2 + zint(b))))
+            elif k in self.ZERO:
+                sz = self.ZERO[k]
+                ctx.prove(f"{tag}/x[]-consumes-elements-and-terminator", ctx.eq(s.pos, _norm(zint(p) + (zint(n) + 1) * sz)))
+            elif k in self.EOFK:
+                at_end = ctx.eq(s.pos, L)
+                ctx.prove(f"{tag}/x[EOF]-takes-everything", z3.Or(zbool_(at_end), zint(L) <= zint(p)))
+            ctx.cover(f"{tag}/parsed")
+
+
+def _count(v, kind):
+    if isinstance(v, SArr):
+        return v.count
+    if isinstance(v, SStr):
+        n = v.raw.length()
+        return n // 2 if isinstance(n, int) else _norm(zint(n) / 2)
+    if isinstance(v, SBytes):
+        return v.length()
+    if isinstance(v, (bytes, str, list)):
+        return len(v)
+    raise Unsupported(f"count of {type(v).__name__}")
+
+
+def make_arrsem(prog_json):
+    return ArraySemantics(prog_json)
